@@ -401,8 +401,49 @@ def tie_b_gpsd(res, workdir):
 
 
 def tie_b_cfgobj(res, workdir):
-    """Tie B for the configuration item codec: CfgKeyData.pack/unpack (+ _pack_keyid, _pack_value, _unpack_value)."""
-    return tie_b_generic(res, workdir, 'cfgobj', 'emit_cfgobj_v', 'CfgKernels.v', 'BridgeCfgObj.v', 'CfgKeyData.pack/unpack')
+    """Tie B for the configuration item codec: CfgKeyData.pack/unpack (+ _pack_keyid, _pack_value, _unpack_value), and - on top of
+    it, in the same generated directory - the CFG-VALGET response decoder UbxCfgValGet.unpack (its loop calls the translated
+    CfgKeyData.unpack)."""
+    ok = tie_b_generic(res, workdir, 'cfgobj', 'emit_cfgobj_v', 'CfgKernels.v', 'BridgeCfgObj.v', 'CfgKeyData.pack/unpack')
+    if not ok:
+        res.notes['tie_B_valget'] = 'unavailable: rests on the CfgKeyData bridge, which is not available in this run'
+        return False
+    from . import translate, translate_req
+    gen = os.path.join(workdir, 'gen_cfgobj')
+    xq = [(gen, 'UbxGen')]
+    try:
+        # emits ValgetKernels.v (and CfgKernels.v again, identically) into the same directory
+        keep = open(os.path.join(gen, 'CfgKernels.v')).read()
+        translate_req.emit_valget_v(os.path.join(gen, 'ValgetKernels.v'))
+        if open(os.path.join(gen, 'CfgKernels.v')).read() != keep:
+            raise MachineryFault('CfgKernels.v changed between two translations of the same source')
+    except translate.TranslateError as e:
+        res.notes['tie_B_valget'] = f'unavailable: {e}'
+        return False
+    except MachineryFault:
+        raise
+    except Exception as e:
+        res.notes['tie_B_valget'] = f'unavailable: {e!r}'
+        return False
+    rc, out = coqc(os.path.join(gen, 'ValgetKernels.v'), gen, extra_q=xq)
+    if rc:
+        res.notes['tie_B_valget'] = 'unavailable: generated ValgetKernels.v does not type-check: ' + out[-400:]
+        return False
+    dst = os.path.join(gen, 'BridgeValget.v')
+    shutil.copy(os.path.join(COQ, 'bridge', 'BridgeValget.v'), dst)
+    rc, out = coqc(dst, gen, extra_q=xq)
+    ok2 = rc == 0
+    res.oblige('Tie B valget: bridge lemma BridgeValget.v (UbxCfgValGet.unpack translated to Gallina = valget_decode)', ok2, out)
+    if ok2:
+        bad = [a for a in parse_assumptions(out) if not a.startswith('Closed under')]
+        if bad:
+            raise MachineryFault('bridge lemma depends on axioms: ' + str(bad[:2]))
+        res.notes['tie_B_valget'] = 'UbxCfgValGet.unpack regenerated from source and proved equal to the model'
+    else:
+        res.notes['tie_B_valget'] = 'bridge lemma FAILED'
+        res.violation('Tie B: UbxCfgValGet.unpack translated from the current source is no longer provably equal to the model',
+                      {'property': res.prop, 'broken': 'coq/bridge/BridgeValget.v', 'coqc_output': out[-2500:]}, 'bridge-valget', False)
+    return ok2
 
 
 # ------------------------------------------------------------------ model driver
